@@ -125,6 +125,7 @@ func init() {
 		Explanation: "Decides: every data hand-out (GetRPCResources(false), a loaded subscription handed to the HTTP encoder) lies on a continuation path behind a get grant and not behind a direct-response meta status (DOM/gates); Access.CanGet grants only for no error ∧ get == true and tests the error first (TABLE/access); Cache.Access turns request and decode errors into Access.Error (LIN on its body); a denied request releases its direct subscription (PAIR/direct-count); the verdict is cached only for a result or system.accessDenied, by a live subscription (DOM/verdict-store) and cleared on every trigger before it can be reused (DOM/invalidate); the access request carries the token as the connection holds it when the request is sent (PROV/token-cid) and a reaccess event always reaches the subscribers (CONF/handle-event). Not decided: whether an access answer that was in flight when a trigger arrived is still valid (a runtime relation). Added after seeding round 7: a direct subscription that is kept lies behind a get grant on every continuation (PAIR/direct-count). Added after seeding round 10: an access answer carrying an error is an error, whatever else it carries (DOM/error-wins). Added after seeding round 11: the list of requests waiting on one access check is drained to its end — no waiter is skipped because an earlier one disposed the subscription (LIN/drain).",
 		Assumptions: baseAssumptions,
 		Rules: []Rule{
+			{Name: "PAIR/access-inflight", Min: 1, Run: ruleAccessInflight, Doc: "every waiter of a shared access request is parked before the request goes out and handed its answer exactly once"},
 			{Name: "LIN/drain", Min: 1, Run: ruleDrainOf("server.Subscription.accessCallbacks"), Doc: "every request waiting on a shared access check is handed the answer (the error, when access is denied): the drain of the waiting list runs to its end"},
 			{Name: "DOM/error-wins", Min: 3, Run: ruleErrorWins, Doc: "a service answer carrying an error member is decoded as that error, whatever else it carries (an access error never grants)"},
 			{Name: "DOM/reset-protocol", Min: 1, Run: ruleResetProtocol, Doc: "a system reset with a matching access pattern reaches every subscriber, whatever the state of the resource"},
@@ -166,9 +167,10 @@ func init() {
 
 	register(&Property{
 		ID: "C06", Title: "Access revocation on token change, reaccess event and system reset",
-		Explanation: "Decides: every store of a new token on a connection that had one is followed by a reaccess of every subscription, unconditionally per subscription (DOM/token-fanout); reaccess events bypass the not-loaded filters in the cache and in the subscription (CONF/handle-event, DOM/event-gate); the verdict is cleared and the event gate closed before the access request, the continuation validates access and reopens the gate exactly once (DOM/invalidate); denial removes all direct subscriptions and sends the unsubscribe event (DOM/revoke); system reset access patterns reach every subscriber of the base and of every cached query (DOM/reset-protocol); a reset access pattern re-checks every subscriber of a matching resource whatever the resource's state (DOM/reset-protocol, resource level); slot bookkeeping before continuations (DOM/drain-reentrancy). Not decided: timing; pattern matching (C12). Added after seeding round 8: an invalid pattern in a reset's list is skipped and does not end the scan (DOM/valid-patterns). Added after seeding round 10: the system event handler starts no goroutine: a reset and the events behind it keep their order (FIFO/handler-sync). Added after seeding round 11: the access request of a re-check reads the connection's token in the task that sends it, so a check that waited for a throttle slot carries the current token (PROV/token-cid).",
+		Explanation: "Decides: every store of a new token on a connection that had one is followed by a reaccess of every subscription, unconditionally per subscription (DOM/token-fanout); reaccess events bypass the not-loaded filters in the cache and in the subscription (CONF/handle-event, DOM/event-gate); the verdict is cleared and the event gate closed before the access request, the continuation validates access and reopens the gate exactly once (DOM/invalidate); denial removes all direct subscriptions and sends the unsubscribe event (DOM/revoke); system reset access patterns reach every subscriber of the base and of every cached query (DOM/reset-protocol); a reset access pattern re-checks every subscriber of a matching resource whatever the resource's state (DOM/reset-protocol, resource level); slot bookkeeping before continuations (DOM/drain-reentrancy). Not decided: timing; pattern matching (C12). Added after seeding round 8: an invalid pattern in a reset's list is skipped and does not end the scan (DOM/valid-patterns). Added after seeding round 10: the system event handler starts no goroutine: a reset and the events behind it keep their order (FIFO/handler-sync). Added after seeding round 11: the access request of a re-check reads the connection's token in the task that sends it, so a check that waited for a throttle slot carries the current token (PROV/token-cid). Added after the mutation sweep of round 11: the in-flight flag of the shared access request is lowered with every answer, in both twins (PAIR/access-inflight).",
 		Assumptions: baseAssumptions,
 		Rules: []Rule{
+			{Name: "PAIR/access-inflight", Min: 1, Run: ruleAccessInflight, Doc: "a re-check after a revocation trigger is not parked behind a request that is no longer outstanding (the in-flight flag is lowered with every answer)"},
 			{Name: "PROV/token-cid", Min: 5, Run: ruleTokenCID, Doc: "a re-check carries the token the connection holds when the request is sent, not one captured when the check was queued behind a throttle"},
 			{Name: "FIFO/handler-sync", Min: 2, Run: ruleHandlerSync, Doc: "message handlers take messages in synchronously (no go statement before the hand-over to a queue): arrival order is kept"},
 			{Name: "DOM/valid-patterns", Min: 1, Run: ruleValidPatterns, Doc: "a system reset re-validates the access of every resource matching a valid pattern of its list: an invalid pattern is skipped, it does not end the scan"},
@@ -185,9 +187,10 @@ func init() {
 
 	register(&Property{
 		ID: "C07", Title: "Exactly one response per client request",
-		Explanation: "Decides, for every path and schedule: rpc.HandleRequest performs exactly one Reply per dispatched request, directly or inside a handler continuation, and Reply is called from nowhere else (LIN/reply); every continuation parameter of the handlers and combinators is consumed exactly once on every full path — called, delegated to another linear function, or parked in a pending slot (LIN/continuations); pending callback slots are cleared only after draining, or when the connection itself goes away (LIN/drain: known finding F9 — Dispose drops ready callbacks on a live connection); an answered throttled request always frees its slot, so the access checks queued behind it — and the client requests waiting for them — are not stranded (PAIR/throttle-slot); continuations run on the connection worker (CTX/conn); every outcome of a get response collects the subscribers waiting on it (DOM/answer-waiting); slot bookkeeping is finished before continuations run (DOM/drain-reentrancy). Not decided: liveness (that a parked continuation is eventually run), the readyCallback.loading countdown arithmetic. Added after seeding round 7: a subscription gives its count on a ready callback back only after descending into its references, so the count cannot reach zero twice (PAIR/ready-count). Added after seeding round 9: marshalers put text into a frame only through json.Marshal: a frame that fails to encode answers nothing (PROV/json-text). Added after seeding round 10: OnReady runs its callback at once only for a ready subscription (DOM/onready-inline). ",
+		Explanation: "Decides, for every path and schedule: rpc.HandleRequest performs exactly one Reply per dispatched request, directly or inside a handler continuation, and Reply is called from nowhere else (LIN/reply); every continuation parameter of the handlers and combinators is consumed exactly once on every full path — called, delegated to another linear function, or parked in a pending slot (LIN/continuations); pending callback slots are cleared only after draining, or when the connection itself goes away (LIN/drain: known finding F9 — Dispose drops ready callbacks on a live connection); an answered throttled request always frees its slot, so the access checks queued behind it — and the client requests waiting for them — are not stranded (PAIR/throttle-slot); continuations run on the connection worker (CTX/conn); every outcome of a get response collects the subscribers waiting on it (DOM/answer-waiting); slot bookkeeping is finished before continuations run (DOM/drain-reentrancy). Not decided: liveness (that a parked continuation is eventually run), the readyCallback.loading countdown arithmetic. Added after seeding round 7: a subscription gives its count on a ready callback back only after descending into its references, so the count cannot reach zero twice (PAIR/ready-count). Added after seeding round 9: marshalers put text into a frame only through json.Marshal: a frame that fails to encode answers nothing (PROV/json-text). Added after seeding round 10: OnReady runs its callback at once only for a ready subscription (DOM/onready-inline).  Added after the mutation sweep of round 11: the bookkeeping of a shared access request — flag raised and caller parked before the request, flag lowered and list emptied before the hand-over — holds on every path of both twins (PAIR/access-inflight).",
 		Assumptions: append([]string{"mq.Client.SendRequest completes exactly once (C18)", "a continuation refused by wsConn.Enqueue because the connection is disposing is an accepted drop"}, baseAssumptions...),
 		Rules: []Rule{
+			{Name: "PAIR/access-inflight", Min: 1, Run: ruleAccessInflight, Doc: "the waiting list of a shared access request is emptied and its in-flight flag lowered before the answer is handed over: no request is answered twice, none is parked for ever"},
 			{Name: "DOM/onready-inline", Min: 1, Run: ruleOnReadyInline, Doc: "OnReady runs its callback at once only for a ready subscription (everything below it loaded)"},
 			{Name: "PROV/json-text", Min: 4, Run: ruleJSONText, Doc: "marshalers put text into a frame only through json.Marshal (a frame that fails to encode answers nothing)"},
 			{Name: "PAIR/ready-count", Min: 1, Run: ruleReadyCount, Doc: "a subscription gives its ready count back only after descending into its references (no double answer)"},
@@ -422,6 +425,7 @@ func init() {
 		Explanation: "Decides: running++ only below the limit under the throttle mutex, Done on every non-panic path either decrements or hands the slot to the head of the queue, FIFO (DOM/throttle, FIFO/queues) — so running <= limit is inductive and no slot is lost; each governed closure calls Done exactly once on every continuation path and outside any task the connection may refuse (PAIR/throttle-slot); no zero-limit throttle is created (DOM/limit-positive); throttled and unthrottled twins agree (covered by the same path rules on both); a subscription keeps the throttle of the tree it was loaded in until it is disposed or its loading failed (WHO/throttle). Not decided: the number of outstanding requests as a runtime quantity; global progress under arbitrary answer orders beyond 'every completion frees or hands over exactly one slot'. Added after seeding round 7: every combinator between Throttle.Add and the Done of a governed request invokes its continuation on every path — also for a disposing connection (PAIR/throttle-slot, strict hops). Added after seeding round 8: with a positive limit the throttle is created on every path — no estimate of the fan-out lets governed requests out unthrottled (DOM/throttle). Added after seeding round 10: the throttle's capacity decision and its consequence (queue the closure / take the slot) lie in one critical section (DOM/throttle).",
 		Assumptions: append([]string{"C18: each governed request completes"}, baseAssumptions...),
 		Rules: []Rule{
+			{Name: "PAIR/access-inflight", Min: 1, Run: ruleAccessInflight, Doc: "one access request per subscription is outstanding at a time (the in-flight flag is raised before the request is sent), so the throttle governs what it is meant to govern"},
 			{Name: "DOM/drain-reentrancy", Min: 2, Run: ruleDrainReentrancy, Doc: "a deferred check released from inside an access callback finds the in-flight flag cleared and is sent"},
 			{Name: "DOM/invalidate", Min: 1, Run: ruleInvalidate, Doc: "a check deferred because the subscription was busy sends its own request: the verdict is cleared before loadAccess can answer from it"},
 			{Name: "PAIR/throttle-slot", Min: 1, Run: rulePairThrottle, Doc: "exactly one Done per governed request"},
